@@ -7,6 +7,8 @@
 //   NS <arch> <hex|->             -> NS <id>
 //   V <mode> <inst> <options> <extra_type> <extra_id> <nops> <ops...>   -> V <err>
 //   E <mode> <inst> <options> <extra_type> <extra_id> <nops> <ops...>   -> E <validate err> <emit err, validation off> <bytes|-> <emit err, validation on> <bytes|-> <Builder emit err (kValidateIntermediate)> <finalize err> <bytes|->
+//   H <A|B> <style 0 detach | 1 reset holder> <n> <m1..mn> <inst> <options> <extra_type> <extra_id> <nops> <ops...>
+//                                 -> H <emit err with validation in the LAST holder> <finalize err (Builder)> <bytes|->
 //   ops:  R <reg_type> <id> | M <size> <base_type> <base_id> <index_type> <index_id> <shift> <offset> <segment> <bcst> <home> | I <int64> | L | N
 //   arch: 0 = x86 (32-bit), 1 = x64, 2 = AArch64;  mode: 0 = x86, 1 = x64, +2 = ValidationFlags::kEnableVirtRegs (V only)
 #include <cstdio>
@@ -118,6 +120,36 @@ static void run_builder(const Cmd& c, Error& eb, Error& ef, std::string& bytes) 
   }
 }
 
+// Emitter history: ONE emitter object is attached to a sequence of CodeHolders of the given modes (detached, or the holder reset, in
+// between); in the last one the instruction is emitted with validation enabled (Assembler: kValidateAssembler; Builder:
+// kValidateIntermediate + finalize). The answer must be the one of a fresh emitter in the last mode.
+template<typename EmitterT>
+static void run_history(EmitterT& em, bool is_builder, const std::vector<int>& modes, int style, const Cmd& c, Error& e, Error& ef, std::string& bytes) {
+  std::vector<CodeHolder*> holders;
+  e = Error::kOk; ef = Error::kOk; bytes = "-";
+  for (size_t i = 0; i < modes.size(); i++) {
+    CodeHolder* code = new CodeHolder();
+    holders.push_back(code);
+    Environment env((modes[i] & 1) ? Arch::kX64 : Arch::kX86);
+    code->init(env);
+    if (code->attach(&em) != Error::kOk) { e = Error::kInvalidState; break; }
+    if (i + 1 < modes.size()) {
+      if (style == 0) code->detach(&em); else code->reset();
+      continue;
+    }
+    em.add_diagnostic_options(is_builder ? DiagnosticOptions::kValidateIntermediate : DiagnosticOptions::kValidateAssembler);
+    Label l = em.new_label();
+    em.bind(l);
+    em.set_inst_options(InstOptions(c.options));
+    if (c.extra_type != 0) { Reg r; r._init_reg(RegUtils::signature_of(RegType(c.extra_type)), c.extra_id); em.set_extra_reg(r); }
+    e = em.emit_op_array(c.inst, c.ops, c.nops);
+    if (e == Error::kOk && is_builder) ef = em.finalize();
+    CodeBuffer& buf = code->text_section()->buffer();
+    if (e == Error::kOk) bytes = hex_of((const char*)buf.data(), buf.size());
+  }
+  for (CodeHolder* h : holders) { if (h->is_initialized()) h->reset(); delete h; }
+}
+
 int main() {
   std::string line;
   while (std::getline(std::cin, line)) {
@@ -139,6 +171,19 @@ int main() {
       std::string s = unhex(h);
       uint32_t id = InstAPI::string_to_inst_id(arch_of(a), s.data(), s.size());
       printf("NS %u\n", id);
+    } else if (k == "H") {
+      // H <A|B> <style> <n> <m1..mn> <inst> <options> <extra_type> <extra_id> <nops> <ops...>   (instruction mode = mn)
+      std::string kind; int style; size_t n; in >> kind >> style >> n;
+      std::vector<int> modes(n);
+      for (size_t i = 0; i < n; i++) in >> modes[i];
+      std::string rest; std::getline(in, rest);
+      std::istringstream in2(std::to_string(modes.empty() ? 0 : modes.back()) + rest);
+      Cmd c;
+      if (modes.empty() || !parse_ops(in2, c, 0)) { printf("H parse-error\n"); continue; }
+      Error e, ef; std::string b;
+      if (kind == "A") { x86::Assembler a; run_history(a, false, modes, style, c, e, ef, b); }
+      else { x86::Builder bld; run_history(bld, true, modes, style, c, e, ef, b); }
+      printf("H %u %u %s\n", unsigned(e), unsigned(ef), b.c_str());
     } else if (k == "V" || k == "E") {
       Cmd c;
       if (!parse_ops(in, c, 0)) { printf("%s parse-error\n", k.c_str()); continue; }
